@@ -617,6 +617,9 @@ func (c *Cluster) runStoreEngine(ops []*storeOp) {
 			s.sut.Close()
 		}
 	}
+	if c.failed("C16") == nil && len(s.model.frames) > 0 && !s.wipeExpected && !abortRun.Load() && r.Bool(0.5) {
+		s.resetPhase()
+	}
 	if s.wipeExpected {
 		for _, v := range c.violations {
 			if v.Property == "C16" && strings.Contains(v.Message, "Invalid value pointer offset") {
@@ -627,6 +630,169 @@ func (c *Cluster) runStoreEngine(ops []*storeOp) {
 	c.trace.add(fmt.Sprintf("store:%d:%d:%d:%d", s.cache, s.applied, s.reopens, s.points))
 	c.stats.Probes["c16-ops-applied"] += s.applied
 	c.stats.Probes["c16-reopens"] += s.reopens
+}
+
+// resetPhase: what a fast-sync writes. The store is reset from one of the frames
+// of the captured history (hg.Store.Reset, as Hashgraph.Reset calls it), the
+// frame's events and a block are written on top; the roots, the frame, the
+// validator set of the frame's round, the frame events and the block must read
+// back identical - live, and from the database after close and reopen.
+func (s *storeRun) resetPhase() {
+	c := s.c
+	m := s.model
+	rounds := make([]int, 0, len(m.frames))
+	for r := range m.frames {
+		if _, dk := m.doubt[fmt.Sprintf("frame:%d", r)]; !dk {
+			rounds = append(rounds, r)
+		}
+	}
+	if len(rounds) == 0 {
+		return
+	}
+	sort.Ints(rounds)
+	fr := rounds[len(rounds)-1]
+	if s.r.Bool(0.4) {
+		fr = rounds[s.r.Intn(len(rounds))]
+	}
+	f := new(hg.Frame)
+	if err := f.Unmarshal(m.frames[fr]); err != nil {
+		panic(harnessError{"frame unmarshal"})
+	}
+	// expected values are taken from an independent decoding of the same bytes
+	ref := new(hg.Frame)
+	ref.Unmarshal(m.frames[fr])
+	wantFrameHash, _ := ref.Hash()
+	wantRoots := map[string][]byte{}
+	for p, root := range ref.Roots {
+		raw, _ := root.Marshal()
+		wantRoots[p] = raw
+	}
+	wantPeers := pubKeysOf(ref.Peers)
+	s.open()
+	if s.sut == nil {
+		return
+	}
+	c.stats.probe("c16-reset-from-frame")
+	if err := s.sut.Reset(f); err != nil {
+		c.violate("C16", "reset", "write-error", "Reset from the frame of round %d failed without any injected fault: %v", fr, err)
+		s.sut.Close()
+		return
+	}
+	// the frame's events, as Hashgraph.Reset inserts them
+	wantEvents := map[string][]byte{}
+	order := []string{}
+	for _, fe := range f.SortedFrameEvents() {
+		raw, _ := fe.Core.MarshalDB()
+		ev := eventFromDB(raw)
+		if err := s.sut.SetEvent(ev); err != nil {
+			if cm.IsStore(err, cm.TooLate) || cm.IsStore(err, cm.SkippedIndex) || cm.IsStore(err, cm.KeyAlreadyExists) {
+				// (cache sizes below the supported range; creators whose root is longer than the cache)
+				c.stats.probe("c16-reset-frame-event-refused")
+				continue
+			}
+			c.violate("C16", "reset", "write-error", "writing frame event %s after a Reset failed without any injected fault: %v", short(ev.Hex()), err)
+			s.sut.Close()
+			return
+		}
+		got, _ := ev.MarshalDB()
+		wantEvents[ev.Hex()] = got
+		order = append(order, ev.Hex())
+	}
+	check := func(how string, db bool) bool {
+		for p, want := range wantRoots {
+			var root *hg.Root
+			var err error
+			if db {
+				root, err = s.sut.SimDBGetRoot(p)
+			} else {
+				root, err = s.sut.GetRoot(p)
+			}
+			if err != nil {
+				c.violate("C16", "root", "root-unreadable", "%s: root of participant %s (frame of round %d) cannot be read: %v", how, short(p), fr, err)
+				return false
+			}
+			got, _ := root.Marshal()
+			if !bytes.Equal(got, want) {
+				c.violate("C16", "root", "stored-root-differs", "%s: root of participant %s read back differs from the root of the frame the store was reset from (round %d)", how, short(p), fr)
+				return false
+			}
+		}
+		var gf *hg.Frame
+		var err error
+		if db {
+			gf, err = s.sut.SimDBGetFrame(fr)
+		} else {
+			gf, err = s.sut.GetFrame(fr)
+		}
+		if err != nil {
+			c.violate("C16", "db-frame", "stored-frame-unreadable", "%s: the frame the store was reset from (round %d) cannot be read: %v", how, fr, err)
+			return false
+		}
+		if gh, _ := gf.Hash(); !bytes.Equal(gh, wantFrameHash) {
+			c.violate("C16", "db-frame", "stored-frame-differs", "%s: the frame the store was reset from (round %d) reads back different: %s", how, fr, frameDiff(gf, ref))
+			return false
+		}
+		if db {
+			got, err := s.sut.SimDBGetPeerSetRaw(fr)
+			if err != nil || !sameList(got, wantPeers) {
+				c.violate("C16", "db-peerset", "stored-peerset-differs", "%s: validator set of the reset frame's round %d read from the database is %v (%v), the frame says %v", how, fr, shortList(got), err, shortList(wantPeers))
+				return false
+			}
+		} else {
+			ps, err := s.sut.GetPeerSet(fr)
+			if err != nil || !sameList(pubKeysOf(ps.Peers), wantPeers) {
+				c.violate("C16", "db-peerset", "stored-peerset-differs", "%s: validator set of the reset frame's round %d reads back different (%v)", how, fr, err)
+				return false
+			}
+		}
+		for _, h := range order {
+			var ev *hg.Event
+			var err error
+			if db {
+				ev, err = s.sut.SimDBGetEvent(h)
+			} else {
+				ev, err = s.sut.GetEvent(h)
+			}
+			if err != nil {
+				c.violate("C16", "read-event", "stored-event-unreadable", "%s: frame event %s written after a Reset cannot be read: %v (cache %d)", how, short(h), err, s.cache)
+				return false
+			}
+			got, _ := ev.MarshalDB()
+			if ev.Hex() != h || !sameEventBytes(got, wantEvents[h]) {
+				c.violate("C16", "read-event", "stored-event-differs", "%s: frame event %s written after a Reset reads back different (cache %d)", how, short(h), s.cache)
+				return false
+			}
+		}
+		return true
+	}
+	if check("after reset", false) && check("after reset (database)", true) {
+		if err := s.sut.Close(); err != nil {
+			c.violate("C16", "close", "close-error", "closing the store fails: %v", err)
+			return
+		}
+		s.open()
+		if s.sut == nil {
+			return
+		}
+		s.reopens++
+		check("after reset and reopen", true)
+		// through the store interface the roots must still be readable (cache empty)
+		for p, want := range wantRoots {
+			root, err := s.sut.GetRoot(p)
+			if err != nil {
+				c.violate("C16", "root", "root-unreadable", "after reset and reopen: root of participant %s cannot be read through the store: %v", short(p), err)
+				break
+			}
+			if got, _ := root.Marshal(); !bytes.Equal(got, want) {
+				c.violate("C16", "root", "stored-root-differs", "after reset and reopen: root of participant %s read through the store differs from the frame's", short(p))
+				break
+			}
+		}
+		c.stats.probe("c16-reset-checked")
+	}
+	if s.sut != nil {
+		s.sut.Close()
+	}
 }
 
 // markDoubt: after a kill the key of the write that was in flight may hold the
